@@ -53,7 +53,13 @@ def scenarios(v):
     for name in ("ADT_A01_INSURANCE", "ADT_A01", "NOPE", None):
         add("ctor:Group:%s" % name, (lambda n: lambda lvl: Group(n, version=v, validation_level=lvl))(name))
     for name in ("ADT_A01", "ACK", "XXX_Y99", "ZZZ_Z01", None):
-        add("ctor:Message:%s" % name, (lambda n: lambda lvl: Message(n, version=v, validation_level=lvl))(name))
+        def mk_message(n):
+            def fn(lvl):
+                m = Message(n, version=v, validation_level=lvl)
+                m.msh.msh_7 = "20200101"        # (the constructor stamps the current time: the two levels are built at different moments)
+                return m
+            return fn
+        add("ctor:Message:%s" % name, mk_message(name))
 
     # B. fields beyond the defined ones (open-ended: last field of type varies, Z-segments; closed: PID)
     def beyond(seg, idx, how):
